@@ -6,6 +6,7 @@ codec is anchored on the retail-made sample files (checked in every shard before
 import os, struct
 from ..core import digest, REPO
 from ..fmt import userfiles as uf
+from .. import text
 
 LEVEL = "exploration"
 RULE = ("character presets: every race x tribe x gender code, each byte field swept through 0..255, timestamps, versions, comments of 0..163 bytes "
@@ -61,6 +62,17 @@ def shard(ctx):
         mine = mine[:: 4] + mine[1:: 16]
     for s in mine:
         char_case(ctx, rng, s)
+    # every scalar value of the BMP (and an astral sample) once per run in a comment and once in a gear-set name: a reader or writer
+    # that treats one character, one block or "text that looks damaged" specially is only seen by text that contains it
+    stride = 4 if P.get("small") else 1
+    cps = text.sweep_code_points(ctx.index, ctx.nshards, stride=stride)
+    for t in text.pack(cps, 163):
+        char_case(ctx, rng, dict(_comment=t.encode("utf-8")))
+    names = [t.encode("utf-8") for t in text.pack(cps, 46)]
+    for i in range(0, len(names), 100):
+        gs_case(ctx, rng, names=names[i:i + 100])
+    for c in cps[:: max(1, len(cps) // 40)]:
+        ctx.stats.classes["text-sweep:" + text.block_of(c)] += 1
     for _ in range(P["nchar"]):
         char_case(ctx, rng, None)
     for _ in range(P["ngs"]):
@@ -123,6 +135,8 @@ def char_case(ctx, rng, forced):
         for k, v in forced.items():
             if k == "_comment_len":
                 comment = rand_comment(rng, v); cls = "comment-sweep"
+            elif k == "_comment":
+                comment = v; cls = "comment-code-point-sweep"
             else:
                 vals[k] = v; cls = "field-sweep:" + ("race" if k in ("race", "tribe", "gender") else k)
     version = rng.choice([1, 2, 3, 4, 5, 6, 7, rng.getrandbits(32)])
@@ -191,14 +205,16 @@ def id_class(i):
     return "id-overlaps-marker-bits" if (i & 1000000) else "id-disjoint-from-marker-bits"
 
 
-def gs_case(ctx, rng):
+def gs_case(ctx, rng, names=None):
     TEMPLATE = os.path.join(REPO, "resources/tests/gearsets/simple.dat")
     sets = {}
-    nsets = rng.choice([0, 1, 1, 2, 7, 30, 100])
+    nsets = rng.choice([0, 1, 1, 2, 7, 30, 100]) if names is None else len(names)
     opaque = rng.random() < 0.5
     for pos in rng.sample(range(100), nsets):
         n = rng.choice([1, 5, 10, 45, 46, rng.randint(1, 46)])
-        if rng.random() < 0.2:
+        if names is not None:
+            name = names[len(sets)]
+        elif rng.random() < 0.2:
             name = ("é日ñ" * 20).encode("utf-8")[:n]
             name = name.decode("utf-8", "ignore").encode("utf-8") or b"n"
         else:
@@ -218,7 +234,7 @@ def gs_case(ctx, rng):
     key = digest(repr(sorted(exp.items())), current)
     idcls = sorted({id_class(v[0]) for s in sets.values() for v in s["slots"].values()})
     key = digest(key, opaque and repr(sorted((p, s["unk"], sorted(s["slots"].items())) for p, s in sets.items())), hdr_unk)
-    ctx.case(key, nsets >= 1, ["gearsets", "gs-sets:%s" % nsets, "gs-opaque-fields:%s" % ("nonzero" if opaque else "zero")] + idcls, sample=dict(sets=nsets, example={k: v for k, v in list(exp.items())[:1]}))
+    ctx.case(key, nsets >= 1, ["gearsets", "gs-sets:%s" % nsets] + (["gs-names:code-point-sweep"] if names is not None else []) + [ "gs-opaque-fields:%s" % ("nonzero" if opaque else "zero")] + idcls, sample=dict(sets=nsets, example={k: v for k, v in list(exp.items())[:1]}))
     # direction 1: python-built canonical file -> library
     b = uf.gs_build(sets, current=current, unknown1=hdr_unk[0], unknown3=hdr_unk[1])
     f = ctx.write("g.dat", b)
